@@ -217,6 +217,10 @@ func crashSignature(prop, stderr string) (string, string) {
 			if f := reFrame.FindStringSubmatch(first); f != nil {
 				return prop + "/crash:" + msgClass(m) + ":" + shortFrame(f[1]), firstLines(rest, 40)
 			}
+			if strings.Contains(first, "verif/sim/") {
+				// the goroutine that died ran harness code only: not a statement about pebbles
+				return prop + "/harness-crash:" + msgClass(m), firstLines(rest, 40)
+			}
 		}
 	}
 	frame := "?"
@@ -560,6 +564,15 @@ func main() {
 							count = 0
 							break
 						}
+						if strings.Contains(sig, "/harness-crash:") {
+							imu.Lock()
+							infra = append(infra, fmt.Sprintf("the harness itself crashed on seed %d: %s", co.crash.Seed, firstLines(detail, 25)))
+							imu.Unlock()
+							done := int(co.crash.Seed-from) + 1
+							from += uint64(done)
+							count -= done
+							break
+						}
 						r := *co.crash
 						r.Prop = *prop
 						r.Verdict = "violation"
@@ -798,6 +811,15 @@ func freePhase(bin, prop, tier, features string, from uint64, deadline time.Time
 						break
 					}
 					sig, detail := crashSignature(prop, co.stderr)
+					if strings.Contains(sig, "/harness-crash:") {
+						a.mu.Lock()
+						a.anomalies = append(a.anomalies, fmt.Sprintf("the harness itself crashed on seed %d (free-running): %s", co.crash.Seed, firstLines(detail, 25)))
+						a.mu.Unlock()
+						done := int(co.crash.Seed-f) + 1
+						f += uint64(done)
+						count -= done
+						continue
+					}
 					r := *co.crash
 					r.Prop, r.Verdict, r.Free = prop, "violation", true
 					r.Violations = []Violation{{Signature: sig, Detail: detail}}
